@@ -192,6 +192,90 @@ func c09NilResults(c *Ctx, ix *idxEngine) {
 		})
 	}
 	r.Floor("R09.N", "dereferences of possibly-nil results", nsites, 8)
+	// the pointer a comma-ok assertion yields is nil when the assertion fails: with the ok result thrown away (or not
+	// consulted on the way), nothing says it succeeded
+	ix = c.Idx()
+	for _, fn := range c.LibFuncs() {
+		eachInstr(fn, func(in ssa.Instruction) {
+			ta, isTA := in.(*ssa.TypeAssert)
+			if !isTA || !ta.CommaOk {
+				return
+			}
+			if _, isPtr := ta.AssertedType.Underlying().(*types.Pointer); !isPtr {
+				return
+			}
+			var val, okv ssa.Value
+			for _, rr := range referrersOf(ta) {
+				if ex, isEx := rr.(*ssa.Extract); isEx {
+					if ex.Index == 0 {
+						val = ex
+					} else {
+						okv = ex
+					}
+				}
+			}
+			if val == nil {
+				return
+			}
+			okUsed := okv != nil && len(referrersOf(okv)) > 0
+			if !okUsed {
+				// ... nor may it be wrapped into an interface value: a typed nil pointer inside an interface is not nil,
+				// so later nil tests pass and the first method call through it dereferences nil
+				carried := map[ssa.Value]bool{val: true}
+				for changed := true; changed; {
+					changed = false
+					for v := range carried {
+						for _, rr := range referrersOf(v) {
+							if phi, isPhi := rr.(*ssa.Phi); isPhi && !carried[phi] {
+								carried[phi] = true
+								changed = true
+							}
+						}
+					}
+				}
+				for v := range carried {
+					for _, rr := range referrersOf(v) {
+						mi, isMI := rr.(*ssa.MakeInterface)
+						if !isMI || mi.X != v {
+							continue
+						}
+						r.Check("R09.N", FuncName(fn), "the pointer from a comma-ok assertion whose ok is discarded is not wrapped into an interface unchecked", mi.Pos(), knownNonNil(ix, v, mi),
+							"when the assertion fails the interface holds a typed nil pointer: it compares unequal to nil and the next method call through it dereferences nil")
+					}
+				}
+			}
+			for _, use := range referrersOf(val) {
+				deref := false
+				switch u := use.(type) {
+				case *ssa.FieldAddr:
+					deref = u.X == val
+				case *ssa.UnOp:
+					deref = u.Op == token.MUL && u.X == val
+				case *ssa.Store:
+					deref = u.Addr == val
+				}
+				if !deref {
+					continue
+				}
+				if okUsed {
+					// consulted somewhere: the dereference must sit behind it (or behind a nil test)
+					guarded := knownNonNil(ix, val, use)
+					for _, cf := range expandConds(dominatingConds(use.Block())) {
+						if cf.Cond == okv && cf.Val {
+							guarded = true
+						}
+					}
+					if guarded {
+						continue
+					}
+					// a phi-carried value etc.: left to the other rules
+					continue
+				}
+				r.Check("R09.N", FuncName(fn), "the pointer from a comma-ok assertion whose ok is discarded is dereferenced only under a nil test", use.Pos(), knownNonNil(ix, val, use),
+					"the assertion can fail (the chain's bottom marker, a foreign implementation): the pointer is then nil and this dereference panics")
+			}
+		})
+	}
 }
 
 func describeArgs(p *prover, call *ssa.Call) string {
